@@ -15,6 +15,10 @@
 (*   "codestr"   code is a string instead of a module table                *)
 (*   "badopts"   an unknown option name                                    *)
 (*   "blank"     an empty or all-blank line (not a request)                *)
+(*   "crlf"      a valid request ended by CR LF                            *)
+(*   "padded"    a valid request with blanks before and after              *)
+(*   "huge"      a valid request of about a megabyte                       *)
+(*   "rawbytes"  bytes that are not UTF-8 text at all   "nul"  a NUL byte  *)
 (* and the client ends the conversation with "EXIT" or by closing the pipe *)
 (* ("EOF").                                                                *)
 (*                                                                         *)
@@ -26,12 +30,12 @@ EXTENDS Integers, Sequences, FiniteSets, TLC, Json
 CONSTANTS MaxReq        \* number of lines the client sends before it ends the conversation
 
 Classes == {"valid", "srcerr", "crash", "print", "bad64", "badjson", "badutf", "notdict", "badaction",
-            "nocode", "codestr", "badopts", "blank"}
+            "nocode", "codestr", "badopts", "blank", "crlf", "padded", "huge", "rawbytes", "nul"}
 Enders == {"EXIT", "EOF"}
 
 \* "any": the property only demands one well-formed reply; whether a source whose constexpr
 \* function prints compiles or is reported as an error is not the daemon's business (C10/C12)
-ReplyOf(c) == IF c = "valid" THEN "code" ELSE IF c = "print" THEN "any" ELSE "error"
+ReplyOf(c) == IF c \in {"valid", "crlf", "padded", "huge"} THEN "code" ELSE IF c = "print" THEN "any" ELSE "error"
 Matches(obs, exp) == Len(obs) = Len(exp) /\ \A k \in 1..Len(exp) : exp[k] = "any" \/ obs[k] = exp[k]
 IsRequest(c) == c # "blank"
 
